@@ -102,8 +102,10 @@ func gen(r *rand.Rand) WL {
 		w.Fault.J = r.Uint32() % 1000
 	case x < 16:
 		w.Fault.Kind = "readfail"
-	case x < 18:
+	case x < 17:
 		w.Fault.Kind = "dberr"
+	case x < 18:
+		w.Fault.Kind = "cursorerr" // a cursor that delivers part of its rows and then reports an error
 	default:
 		w.Fault.Kind = "cancel"
 	}
@@ -584,6 +586,18 @@ func (r *runner) errorRun() (string, string) {
 			return nil
 		}
 		tag = fmt.Sprintf("database error on call %d of %d", k, r.refCalls)
+	case "cursorerr":
+		k := 1 + int(f.K)%max(1, r.refCalls)
+		nth := 0
+		src.CursorEnd = func(site string, rows int) (int, error) {
+			nth++
+			if nth == 1+k%7 && rows > 0 {
+				r.counters["partial_cursors_injected"]++
+				return (rows + 1) / 2, fmt.Errorf("%s: %w after %d of %d rows", site, errInjected, (rows+1)/2, rows)
+			}
+			return rows, nil
+		}
+		tag = fmt.Sprintf("cursor #%d delivers half of its rows, then an error", 1+k%7)
 	case "cancel":
 		k := 1 + int(f.K)%max(1, r.refCalls)
 		src.Hook = func(_ context.Context, site string) error {
